@@ -12,7 +12,7 @@ pub struct World {
     pub vsel: u64,
 }
 
-pub const AUTO_VERBOSITY_NOTE: &str = "runs whose case does not fix a verbosity use 0 / -v / -vv / -vvv for 70 / 10 / 10 / 10 % of the chains (chosen by a hash of the indexed block hashes, so that partner runs of one case share it); a fifth of the chains write into a dump folder that already holds longer stale temporary files of the same callback; the worker pool has 1..33 threads (per chain); a third of the chains run with the release build of the tool; an eighth of the chains run with stdout on a pseudo terminal and an eighth with a shifted wall clock; likewise 40 % of the chains are run with the blockchain directory and the dump folder spelled differently on the command line (relative to the working directory, with trailing slashes, with ./ and /../ detours) and TZ set to a far-off zone";
+pub const AUTO_VERBOSITY_NOTE: &str = "runs whose case does not fix a verbosity use 0 / -v / -vv / -vvv for 70 / 10 / 10 / 10 % of the chains (chosen by a hash of the indexed block hashes, so that partner runs of one case share it); a fifth of the chains write into a dump folder that already holds longer stale temporary files of the same callback; the worker pool has 1..33 threads (per chain); a sixth of the chains have their TMPDIR on another file system than the dump folder; a third of the chains run with the release build of the tool; an eighth of the chains run with stdout on a pseudo terminal and an eighth with a shifted wall clock; likewise 40 % of the chains are run with the blockchain directory and the dump folder spelled differently on the command line (relative to the working directory, with trailing slashes, with ./ and /../ detours) and TZ set to a far-off zone";
 
 impl World {
     /// writes the plan into <scratch>/data
@@ -78,6 +78,10 @@ impl World {
             // expensive, so the large settings - 64, 97, 300 - are left to C13, which uses them on small chains)
             let t = [1u32, 2, 2, 3, 4, 6, 8, 12, 16, 33][((self.vsel >> 58) % 10) as usize];
             o.threads = Some(if self.stale_len() > (24 << 20) { t.min(4) } else { t });
+        }
+        // a sixth of the chains: TMPDIR on another file system than the dump folder
+        if (self.vsel >> 23) % 6 == 0 && o.state_dir.is_none() {
+            o.tmp_elsewhere = true;
         }
         // half of the Bitcoin chains are run without `-c` (Bitcoin is the default coin)
         if (self.vsel >> 55) % 2 == 0 {
